@@ -1058,6 +1058,7 @@ fn s5_inner(c: &S5, ctx: &mut Ctx, d: &mut Drv) -> CaseResult {
 
 fn main() {
 	install_recording_signer();
+	netsim::rec::tolerate_monitor_roundtrip_tripwire();
 	let mut c = Check::new("C08", "exploration");
 	c.assume("all peers are unmodified LDK nodes; silence, slowness and last-moment answers are schedules of the harness-owned transport, of block delivery to individual nodes and of confirmation delays");
 	c.assume("the library's stated bounds are respected: every transaction a node broadcasts confirms within MAX_BLOCKS_FOR_CONF (18) blocks of the height at which the node was due to act, there are no reorganisations, fee estimates are constant, and the node processes its events after every block except inside generated bursts");
